@@ -199,6 +199,9 @@ def make_rows(nprng, rng, n, ncols):
     for r in rows:
         if rng.random() < 0.25:
             r[rng.choice([0, ncols - 1, rng.randrange(ncols)])] = ''
+        elif rng.random() < 0.05:
+            # characters that str.splitlines() treats as line breaks but the file iterator does not
+            r[rng.randrange(ncols)] = rng.choice(['a\u0085b', 'x\x0cy', 'p\x0bq', 'm\x1cn', 'k\u2028l'])
     return rows
 
 
@@ -368,7 +371,8 @@ def shard_task(sh, part):
             ok, _ = sh.call('tsv-sorted-ascending', 'outrank_task_conduct_ranking', tr.outrank_task_conduct_ranking, args)
         if not ok:
             continue
-        mb, remaining, tail_used, invalid = model_batches(text, ncols, B, sub)
+        # the csv-raw source is read as latin1 by design (parse_csv_raw): the reference reader decodes the same bytes the same way
+        mb, remaining, tail_used, invalid = model_batches(text.encode('utf-8').decode('latin1'), ncols, B, sub)
         sh.check('batches=model', rec.batches_in == mb, 'batches-differ-from-reference-reader', lambda: {'observed': [len(b) for b in rec.batches_in], 'model': [len(b) for b in mb], 'B': B, 'sub': sub, 'rows': n_file})
         exp = median_table(rec.triplets)
         tsv = os.path.join(out_dir, 'pairwise_ranks.tsv')
